@@ -239,7 +239,7 @@ def layout_jobs(tier, want_valid, want_invalid):
                         job(d, style=dict(BASE_STYLE, **{k: v}))
         for d in range(9 * scale):                                    # every single local override
             for site in range(40):
-                for alt in range(10):
+                for alt in range(11):
                     job(d, ov=[(site, alt)])
         for k in range(6):                                            # every keyword the grammar admits as identifier, in every identifier position
             for role in range(30):
@@ -270,6 +270,8 @@ def layout_jobs(tier, want_valid, want_invalid):
                     job(d, viol=v, vsite=site, style=dict(BASE_STYLE, multi=True))
             for site in range(30):                                    # ... with one separator overridden (alternative 8 of a line break: a bare carriage return)
                 job(site % 3, viol=v, vsite=site // 3, ov=[(site, 8)])
+                job(site % 3, viol=v, vsite=site // 3, ov=[(site, 9)])       # ... a trailing comment ended by a bare carriage return
+                job((site + 1) % 3, viol=v, vsite=site // 3, ov=[(site, 10)])
             for site in range(4):                                     # ... behind a full-line comment longer than 64 KiB
                 job(site % 3 * 3, viol=v, vsite=site * 5, style=dict(BASE_STYLE, cmt=1, pad=1))
             for _ in range(80 * scale):                               # the same violations under random layouts (comments / blank lines around the site)
